@@ -3,7 +3,7 @@
    native types; Z, positive, nat stay extracted datatypes; no Extract Constant. *)
 From Coq Require Import ZArith List.
 From Coq Require Extraction ExtrOcamlBasic.
-From MV Require Import Base.Res Model.EventTree Model.TreeOps Model.Num Model.Envelope Model.Convert Model.Equality Model.Numbers Model.Tools Model.IdTree Model.Heap Model.TieAll Model.ListOps.
+From MV Require Import Base.Res Model.EventTree Model.TreeOps Model.Num Model.Envelope Model.Convert Model.Equality Model.Numbers Model.Tools Model.IdTree Model.Heap Model.TieAll Model.ListOps Model.LazyExn.
 Extraction Language OCaml.
 
 Extraction "model.ml"
@@ -16,6 +16,6 @@ Extraction "model.ml"
   ev_eqb ev_neqb
   d_eq d_lt d_le d_gt d_ge d_ne arith st_run st_beat st_read parse_duration parse_tempo seconds_of western_bpm qval to_ticks round_digits
   scale scale_sequence_to_sum accumulate_from_n cyclic_permutations find_closest_index uniqify nget nset ndel
-  find_sums default_numbers default_counts chronon_to_attribute dict_to_keyword_argument dict_to_chronon lazy_run lazy_call
+  find_sums default_numbers default_counts chronon_to_attribute dict_to_keyword_argument dict_to_chronon lazy_run lazy_call lazy_run_x lazy_call_x
   set_parameter get_parameter_flat get_parameter_nested set_duration idur leaf_positions all_ids
   dcopy pcopy pattern gids.
